@@ -112,7 +112,14 @@ pub fn check_faulty(text: &str, planted: &[Planted]) -> Result<Vec<String>, (Str
                 let want = planted[0].kind.code();
                 // an unknown name assigned to an enumeration variable is either an undeclared
                 // variable or an undefined enumeration value: both codes say so
-                let alt = if planted[0].site_class.ends_with(".assigned-to-enum-variable") { "P0014" } else { want };
+                let alt = if planted[0].site_class.ends_with(".assigned-to-enum-variable") {
+                    "P0014"
+                } else if planted[0].site_class.ends_with(".inserted-enum-typed-variable") {
+                    // `m : T := V` with T undeclared: "enumeration not declared" or "unknown type"
+                    "P0012"
+                } else {
+                    want
+                };
                 if !codes.iter().any(|c| c == want || c == alt) {
                     return Err(("wrong-code".into(), format!("single fault {} must be reported with {}, got {:?}", what, want, codes)));
                 }
